@@ -2,7 +2,8 @@
 //! Engine E4: for each scenario the fault-free run records N stream calls; for every k < N the
 //! execution in which call k and all later calls fail is run (exhaustive in k).
 use super::scen::*;
-use crate::env::{DefaultChooser, FailFrom, Kind};
+use crate::env::{DefaultChooser, FailFromKind, Kind};
+use std::io::ErrorKind;
 use crate::report::Report;
 use rayon::prelude::*;
 use serde_json::{json, Value};
@@ -53,7 +54,7 @@ pub fn judge_fault(role: Role, base: &Outcome, o: &Outcome) -> Option<(&'static 
 
 pub fn run(tier: &str) -> i32 {
     let rep = Report::new("C15", tier, "fault_enumeration");
-    rep.rule("for each scenario (header/directory/archive read and write, lookups, re-write over a failing backing reader, read_directories/write_directories, codec adapters; 4 compressions; sync and async; leaf-spill writers) the fault-free run records N stream calls (reads, writes, seeks, flushes, closes - including those issued from a codec's Drop); every k in [0,N) is executed with call k and all later calls failing; oracle: Err, or Ok only with the complete image/value; a panic is a violation; non-trivial = every faulty execution; distinct = (scenario, k)");
+    rep.rule("for each scenario (header/directory/archive read and write, lookups, re-write over a failing backing reader, read_directories/write_directories, codec adapters; 4 compressions; sync and async; leaf-spill writers) the fault-free run records N stream calls (reads, writes, seeks, flushes, closes - including those issued from a codec's Drop); every k in [0,N) is executed with call k and all later calls failing, once per error kind in {Other, UnexpectedEof, BrokenPipe, InvalidData}; oracle: Err, or Ok only with the complete image/value; a panic is a violation; non-trivial = every faulty execution; distinct = (scenario, k)");
     rep.assume("fail-stop faults only (sticky); transient faults are outside the property");
     let scs = scenarios(true);
     let mut kinds_hit: std::collections::BTreeMap<String, u64> = Default::default();
@@ -70,22 +71,27 @@ pub fn run(tier: &str) -> i32 {
         if ks.len() < n {
             rep.count("fault_points_skipped_in_quick_tier", (n - ks.len()) as u64);
         }
-        let res: Vec<(usize, Option<(&'static str, String)>, Kind)> = ks
+        // a stream may report a failure with any error kind: the generic one, and the kinds a library is
+        // most tempted to treat specially (end of stream, connection loss, bad data)
+        let kinds = [ErrorKind::Other, ErrorKind::UnexpectedEof, ErrorKind::BrokenPipe, ErrorKind::InvalidData];
+        let cases: Vec<(usize, ErrorKind)> = ks.iter().flat_map(|k| kinds.iter().map(move |e| (*k, *e))).collect();
+        let res: Vec<(usize, ErrorKind, Option<(&'static str, String)>, Kind)> = cases
             .par_iter()
-            .map(|k| {
-                let (o, h2) = (sc.run)(Box::new(FailFrom(*k)));
+            .map(|(k, ek)| {
+                let (o, h2) = (sc.run)(Box::new(FailFromKind(*k, *ek)));
                 let failed_kind = h2.log().iter().find(|op| op.failed).map(|op| op.kind).unwrap_or(Kind::Flush);
-                (*k, judge_fault(sc.role, &base, &o), failed_kind)
+                (*k, *ek, judge_fault(sc.role, &base, &o), failed_kind)
             })
             .collect();
-        rep.eval(ks.len() as u64);
-        rep.nontrivial(ks.len() as u64);
+        rep.eval(cases.len() as u64);
+        rep.nontrivial(cases.len() as u64);
         rep.count("scenarios", 1);
         rep.count("fault_points", ks.len() as u64);
-        for (k, bad, fk) in res {
+        rep.count("faulty_executions", cases.len() as u64);
+        for (k, ek, bad, fk) in res {
             *kinds_hit.entry(format!("{fk:?}")).or_insert(0) += 1;
             if let Some((what, d)) = bad {
-                rep.violation(format!("{what}/{}", sc.name), format!("fault from call {k} of {n} ({:?} at offset {}): {d}", log.get(k).map(|o| o.kind), log.get(k).map(|o| o.pos).unwrap_or(0)), json!({"kind":"fault","scenario":sc.name,"k":k}));
+                rep.violation(format!("{what}/{}", sc.name), format!("fault ({ek:?}) from call {k} of {n} ({:?} at offset {}): {d}", log.get(k).map(|o| o.kind), log.get(k).map(|o| o.pos).unwrap_or(0)), json!({"kind":"fault","scenario":sc.name,"k":k,"error_kind":format!("{ek:?}")}));
             }
         }
         rep.sample(n as u64, || json!({"scenario":sc.name,"N":n,"ops":log.iter().take(12).map(|o| format!("{:?}@{}+{}", o.kind, o.pos, o.done)).collect::<Vec<_>>()}));
@@ -103,6 +109,12 @@ pub fn replay(case: &Value) -> Vec<String> {
     let Some(sc) = scs.iter().find(|s| s.name == name) else { return vec![format!("unknown scenario {name}")] };
     let (base, _) = (sc.run)(Box::new(DefaultChooser));
     let k = case["k"].as_u64().unwrap_or(0) as usize;
-    let (o, _) = (sc.run)(Box::new(FailFrom(k)));
+    let ek = match case["error_kind"].as_str() {
+        Some("UnexpectedEof") => ErrorKind::UnexpectedEof,
+        Some("BrokenPipe") => ErrorKind::BrokenPipe,
+        Some("InvalidData") => ErrorKind::InvalidData,
+        _ => ErrorKind::Other,
+    };
+    let (o, _) = (sc.run)(Box::new(FailFromKind(k, ek)));
     judge_fault(sc.role, &base, &o).map(|(w, d)| format!("{w}: {d}")).into_iter().collect()
 }
